@@ -152,6 +152,7 @@ pub fn run_ops(dict: &Arc<JapaneseDictionary>, ops: &[TokOp], n_lists: usize, yi
                 Obs::Unit
             }
             TokOp::SetDebug { .. } => Obs::Unit,
+            TokOp::CollectHeld { .. } => Obs::Unit,
             TokOp::Arm { fault, .. } => {
                 pending = Some(fault.clone());
                 Obs::Unit
